@@ -1,0 +1,11 @@
+//go:build verif
+
+package registry
+
+// Contracts (structured comments read by /verif/engine). Comment-only file.
+
+// The converter registry is configuration: registered converters are assumed
+// non-nil and panic-free (trusted, not verified).
+//@ func ToObject, ToInterface
+//@ trusted
+//@ property C20
